@@ -1559,6 +1559,20 @@ def check_preproc(case, rec):
         _skip(rec, "illcond-preproc")
         return
     _same(rec, dict(tags, rel="preproc"), "preprocessing inside vs beforehand", got, want, rtol=rtol)
+    # missing values combined with preprocessing: a no_data marker / mask / NaN planted in the *raw* data must act
+    # like removed points whatever trend / mean / normalizer is applied afterwards
+    if not fit and f.shape[1] >= 4:
+        miss = ((np.arange(f.size).reshape(f.shape) * 7 + case.get("seed", 0)) % 4) == 1
+        if miss.any() and not miss.all():
+            nd = -999.25
+            pre_m = np.where(miss, np.nan, pre)
+            want_m = _ve(tags, pos, _field_arg(pre_m), case["edges"], **kw)
+            kwn = {k: v for k, v in kwp.items() if k != "fit_normalizer"}
+            got_nd = _ve(tags, pos, _field_arg(np.where(miss, nd, f)), case["edges"], no_data=nd, **kwn)
+            _same(rec, dict(tags, rel="preproc", enc="no_data+preproc"), "no_data marker with trend/mean/normalizer vs removal", got_nd, want_m, rtol=rtol)
+            got_nan = _ve(tags, pos, _field_arg(np.where(miss, np.nan, f)), case["edges"], **kwn)
+            _same(rec, dict(tags, rel="preproc", enc="nan+preproc"), "NaN with trend/mean/normalizer vs removal", got_nan, want_m, rtol=rtol)
+            rec.label("missing+preproc")
     ident = norm == "none" and t_arg is None and m_arg is None
     rec.nontrivial(not ident and _nonempty(want[2]) >= 2)
 
